@@ -40,15 +40,16 @@ func (p *NamespaceEscalation) Check(
 
 	// All objects need to be namespace-scoped and either have a namespace equal
 	// to their owner or empty so it can be defaulted.
-	if len(obj.GetNamespace()) > 0 {
-		if obj.GetNamespace() != owner.GetNamespace() {
-			violations = append(violations, Violation{
-				Position: "Object " + obj.GetName(),
-				Error:    "Must stay within the same namespace.",
-			})
-		}
+	if len(obj.GetNamespace()) > 0 && obj.GetNamespace() != owner.GetNamespace() {
+		violations = append(violations, Violation{
+			Position: "Object " + obj.GetName(),
+			Error:    "Must stay within the same namespace.",
+		})
 		return
 	}
+
+	// Also check the scope of objects that carry the namespace of their owner:
+	// cluster-scoped APIs ignore the namespace on reads and patches.
 
 	gvk := obj.GetObjectKind().GroupVersionKind()
 	mapping, err := p.restMapper.RESTMapping(gvk.GroupKind(), gvk.Version)
